@@ -237,3 +237,98 @@ Proof.
       destruct (scan_num (c :: rest') 0) as [m|]; cbn [obind out_res]; [|reflexivity].
       do 2 f_equal. apply str_slice_nat. unfold cur. lia.
 Qed.
+
+(* ------------------------------------------------------------------ strip_f, parse.py:178-179 *)
+Lemma lstrip_ext p q s : (forall c, p c = q c) -> lstrip p s = lstrip q s.
+Proof. intro H. induction s as [|c t IH]; cbn [lstrip]; [reflexivity|]. rewrite H, IH. reflexivity. Qed.
+Lemma rstrip_ext p q s : (forall c, p c = q c) -> rstrip p s = rstrip q s.
+Proof. intro H. induction s as [|c t IH]; cbn [rstrip]; [reflexivity|]. rewrite H, IH. reflexivity. Qed.
+
+Theorem strip_f_bridge : forall x, strip_f_gen x = strip_f x.
+Proof.
+  intro x. unfold strip_f_gen, str_strip, strip_f, strip.
+  rewrite (lstrip_ext _ strip_set), (rstrip_ext _ strip_set); [reflexivity| |];
+    intro c; unfold char_in, strip_set, LBRACK, RBRACK, SP, NL, TAB; cbn [existsb];
+    destruct (c =? 91), (c =? 93), (c =? 32), (c =? 10), (c =? 9); reflexivity.
+Qed.
+
+Lemma map_strip_f_gen l : map strip_f_gen l = map strip_f l.
+Proof. apply map_ext. exact strip_f_bridge. Qed.
+
+(* ------------------------------------------------------------------ _remap_axis_sparse_obs/_samp, parse.py:182-191 *)
+Theorem remap_axis_obs_bridge : forall rcv lk, out_res (remap_axis_obs_gen rcv lk) = Some (remap_axis_obs rcv lk).
+Proof.
+  intros rcv lk. unfold remap_axis_obs_gen, remap_axis_obs, COMMA. rewrite map_strip_f_gen.
+  destruct (map strip_f (split_char 44 rcv)) as [|a [|b [|c [|d l]]]]; cbn [three]; try reflexivity.
+  unfold lookup_at. destruct (lookup_get a lk); reflexivity.
+Qed.
+
+Theorem remap_axis_samp_bridge : forall rcv lk, out_res (remap_axis_samp_gen rcv lk) = Some (remap_axis_samp rcv lk).
+Proof.
+  intros rcv lk. unfold remap_axis_samp_gen, remap_axis_samp, COMMA. rewrite map_strip_f_gen.
+  destruct (map strip_f (split_char 44 rcv)) as [|a [|b [|c [|d l]]]]; cbn [three]; try reflexivity.
+  unfold lookup_at. destruct (lookup_get b lk); reflexivity.
+Qed.
+
+(* ------------------------------------------------------------------ _direct_slice_data_sparse_obs/_samp, parse.py:194-234 *)
+(* the source appends to new_data while it walks the records; the model conses after the recursive
+   call: the loop started with `acc` gives acc ++ (the model's rows), and the first error wins in both *)
+Definition rows_spec (acc : list text) (r : result (list text)) : option (result (list text)) :=
+  match r with ROk xs => Some (ROk (acc ++ xs)) | RErr e => Some (RErr e) end.
+
+Lemma out_res_inv {A} (o : outcome A) (r : result A) : out_res o = Some r ->
+  match o with
+  | Val a => r = ROk a
+  | Exn IndexError => r = RErr E_OTHER
+  | Exn ValueError => r = RErr E_VALUE
+  | Exn KeyError => r = RErr E_KEY
+  | OutOfFuel => False
+  end.
+Proof. destruct o as [a|[]|]; cbn; intro H; inversion H; reflexivity. Qed.
+
+Lemma slice_obs_rows_ok : forall l lk acc, out_res (slice_obs_rows l lk acc) = rows_spec acc (obs_rows l lk).
+Proof.
+  induction l as [|rcv l IH]; intros lk acc; cbn [slice_obs_rows obs_rows].
+  - cbn. rewrite app_nil_r. reflexivity.
+  - rewrite strip_f_bridge. destruct (strip_f rcv) as [|z t] eqn:S; cbn [lempty]; [apply IH|].
+    unfold COMMA. destruct (split_char 44 (z :: t)) as [|r [|c [|v [|x y]]]]; cbn [three]; try reflexivity.
+    unfold lookup_mem. destruct (lookup_get r lk); [|apply IH].
+    pose proof (out_res_inv _ _ (remap_axis_obs_bridge rcv lk)) as B.
+    destruct (remap_axis_obs_gen rcv lk) as [a|[]|]; try rewrite B; cbn [obind rbind]; try reflexivity; [|contradiction].
+    rewrite IH. destruct (obs_rows l lk); cbn; [rewrite <- app_assoc|]; reflexivity.
+Qed.
+
+Lemma slice_samp_rows_ok : forall l lk acc, out_res (slice_samp_rows l lk acc) = rows_spec acc (samp_rows l lk).
+Proof.
+  induction l as [|rcv l IH]; intros lk acc; cbn [slice_samp_rows samp_rows].
+  - cbn. rewrite app_nil_r. reflexivity.
+  - rewrite strip_f_bridge. destruct (strip_f rcv) as [|z t] eqn:S; cbn [lempty]; [apply IH|].
+    unfold COMMA. rewrite map_strip_f_gen.
+    destruct (map strip_f (split_char 44 rcv)) as [|r [|c [|v [|x y]]]]; cbn [three]; try reflexivity.
+    unfold lookup_mem. destruct (lookup_get c lk); [|apply IH].
+    pose proof (out_res_inv _ _ (remap_axis_samp_bridge rcv lk)) as B.
+    destruct (remap_axis_samp_gen rcv lk) as [a|[]|]; try rewrite B; cbn [obind rbind]; try reflexivity; [|contradiction].
+    rewrite IH. destruct (samp_rows l lk); cbn; [rewrite <- app_assoc|]; reflexivity.
+Qed.
+
+Theorem slice_obs_bridge : forall data keep, out_res (slice_obs_gen data keep) = Some (slice_obs data keep).
+Proof.
+  intros data keep. unfold slice_obs_gen, slice_obs, RBRACK, COMMA. cbv zeta.
+  pose proof (slice_obs_rows_ok (split2 93 44 data) (remap_lookup keep) []) as B.
+  destruct (obs_rows (split2 93 44 data) (remap_lookup keep)) as [xs|e]; cbn [rows_spec app] in B;
+    apply out_res_inv in B;
+    destruct (slice_obs_rows (split2 93 44 data) (remap_lookup keep) []) as [a|[]|]; try discriminate B; try contradiction;
+    cbn [obind rbind out_res]; try (inversion B; reflexivity).
+  injection B as B; subst xs. destruct a; reflexivity.
+Qed.
+
+Theorem slice_samp_bridge : forall data keep, out_res (slice_samp_gen data keep) = Some (slice_samp data keep).
+Proof.
+  intros data keep. unfold slice_samp_gen, slice_samp, RBRACK, COMMA. cbv zeta.
+  pose proof (slice_samp_rows_ok (split2 93 44 data) (remap_lookup keep) []) as B.
+  destruct (samp_rows (split2 93 44 data) (remap_lookup keep)) as [xs|e]; cbn [rows_spec app] in B;
+    apply out_res_inv in B;
+    destruct (slice_samp_rows (split2 93 44 data) (remap_lookup keep) []) as [a|[]|]; try discriminate B; try contradiction;
+    cbn [obind rbind out_res]; try (inversion B; reflexivity).
+  injection B as B; subst xs. destruct a; reflexivity.
+Qed.
